@@ -11,12 +11,12 @@ import (
 // gen_ted: constants of the tree-edit-distance code (internal/analyzer/apted*.go,
 // framework_patterns.go, the cost-model switch of clone_detector.go) -> Gen/TedConst.v.
 
-func coqStr(s string) string { return "\"" + strings.ReplaceAll(s, "\"", "\"\"") + "\"%string" }
+func tedStr(s string) string { return "\"" + strings.ReplaceAll(s, "\"", "\"\"") + "\"%string" }
 
-func coqStrList(xs []string) string {
+func tedStrList(xs []string) string {
 	ys := make([]string, len(xs))
 	for i, x := range xs {
-		ys[i] = coqStr(x)
+		ys[i] = tedStr(x)
 	}
 	return "[" + strings.Join(ys, "; ") + "]"
 }
@@ -257,7 +257,7 @@ func init() {
 				if len(ss) == 0 {
 					fail("ted: %s: list %s not found", it[0], it[1])
 				}
-				fmt.Fprintf(&b, "Definition ted_py_%s : list string := %s.\n", it[1], coqStrList(flat(ss)))
+				fmt.Fprintf(&b, "Definition ted_py_%s : list string := %s.\n", it[1], tedStrList(flat(ss)))
 			}
 		}
 		for _, it := range [][2]string{{"isLiteralNode", "literal_prefix"}, {"isIdentifierNode", "identifier_prefix"}} {
@@ -266,7 +266,7 @@ func init() {
 				if len(a) != 1 {
 					fail("ted: %s: expected one HasPrefix", it[0])
 				} else {
-					fmt.Fprintf(&b, "Definition ted_py_%s : string := %s.\n", it[1], coqStr(a[0]))
+					fmt.Fprintf(&b, "Definition ted_py_%s : string := %s.\n", it[1], tedStr(a[0]))
 				}
 			}
 		}
@@ -293,7 +293,7 @@ func init() {
 					fail("ted: relatedPairs: malformed row")
 					continue
 				}
-				items = append(items, "("+coqStr(r[0])+", "+coqStr(r[1])+")")
+				items = append(items, "("+tedStr(r[0])+", "+tedStr(r[1])+")")
 			}
 			if len(items) == 0 {
 				fail("ted: relatedPairs not found")
@@ -313,14 +313,14 @@ func init() {
 			if len(names) == 0 {
 				fail("ted: isTopLevelDefinition: no names")
 			}
-			fmt.Fprintf(&b, "Definition ted_py_toplevel : list string := %s.\n", coqStrList(names))
+			fmt.Fprintf(&b, "Definition ted_py_toplevel : list string := %s.\n", tedStrList(names))
 		}
 		// --- boilerplate labels
 		if fd := findFunc(p, "framework_patterns.go", "", "IsBoilerplateLabel"); need(fd, "IsBoilerplateLabel") {
 			ss := stringSlices(fd)
-			fmt.Fprintf(&b, "Definition ted_bp_prefixes : list string := %s.\n", coqStrList(stringArgs(fd, "HasPrefix")))
-			fmt.Fprintf(&b, "Definition ted_bp_lower_contains : list string := %s.\n", coqStrList(flat(ss["typeHintPatterns"])))
-			fmt.Fprintf(&b, "Definition ted_bp_contains : list string := %s.\n", coqStrList(flat(ss["fieldPatterns"])))
+			fmt.Fprintf(&b, "Definition ted_bp_prefixes : list string := %s.\n", tedStrList(stringArgs(fd, "HasPrefix")))
+			fmt.Fprintf(&b, "Definition ted_bp_lower_contains : list string := %s.\n", tedStrList(flat(ss["typeHintPatterns"])))
+			fmt.Fprintf(&b, "Definition ted_bp_contains : list string := %s.\n", tedStrList(flat(ss["fieldPatterns"])))
 			if len(stringArgs(fd, "HasPrefix")) == 0 || len(ss["typeHintPatterns"]) == 0 || len(ss["fieldPatterns"]) == 0 {
 				fail("ted: IsBoilerplateLabel: pattern lists not found")
 			}
